@@ -215,7 +215,7 @@ func ToUpper(s string) string {
 		if c >= 0x80 {
 			vfCut("vfmodel: ToUpper of non-ASCII")
 		}
-		if 'a' <= c && c <= 'z' {
+		if vfAnd('a' <= c, c <= 'z') {
 			c -= 'a' - 'A'
 		}
 		out[i] = c
@@ -230,7 +230,7 @@ func ToLower(s string) string {
 		if c >= 0x80 {
 			vfCut("vfmodel: ToLower of non-ASCII")
 		}
-		if 'A' <= c && c <= 'Z' {
+		if vfAnd('A' <= c, c <= 'Z') {
 			c += 'a' - 'A'
 		}
 		out[i] = c
